@@ -168,3 +168,42 @@ func TestC17_Regress_BalancingUnbalancedSplitCount(t *testing.T) {
 	what, err := replayOps(cfg{slot: 2, balance: true, dom: 16}, balanceSplitCountOps)
 	verdict(t, balanceSplitCountSlug, what, err)
 }
+
+// TestC17_Regress_RemoveReportsRemovedItem: RemoveCurrentItem of an item that lives in an inner
+// node copies its in-order successor up and vacates the successor's leaf slot; the
+// ItemActionTracker must still be told Remove(the removed item), not Remove(the successor)
+// (repaired in /repo by 1297f9b6). slot 2, unique: Add(1) Add(7) Add(11) puts 7 in the root.
+func TestC17_Regress_RemoveReportsRemovedItem(t *testing.T) {
+	tr, err := newTree(cfg{slot: 2, unique: true, dom: 16})
+	if err != nil {
+		t.Fatalf("HARNESS-ERROR %v", err)
+	}
+	ids := map[int]string{}
+	for i, n := range []int{1, 7, 11} {
+		if ok, err := tr.b.Add(ctx, K{N: n}, i+1); err != nil || !ok {
+			t.Fatalf("Add(%d) = %v, %v", n, ok, err)
+		}
+	}
+	for _, e := range tr.trk.ev {
+		if e.kind == 'A' {
+			ids[e.n] = e.id.String()
+		}
+	}
+	tr.trk.reset()
+	if ok, err := tr.b.Remove(ctx, K{N: 7}); err != nil || !ok {
+		t.Fatalf("Remove(7) = %v, %v", ok, err)
+	}
+	var rm []trkEvent
+	for _, e := range tr.trk.ev {
+		if e.kind == 'R' {
+			rm = append(rm, e)
+		}
+	}
+	if len(rm) != 1 || rm[0].n != 7 || rm[0].id.String() != ids[7] {
+		t.Fatalf("Add(1) Add(7) Add(11) Remove(7): ItemActionTracker was told %s, want exactly one Remove of the item with key 7", renderEvents(tr.trk.ev))
+	}
+	seq, err := tr.scanForward()
+	if err != nil || len(seq) != 2 || seq[0].N != 1 || seq[1].N != 11 {
+		t.Fatalf("after Remove(7) the tree holds %s, %v", renderSeq(seq, 10), err)
+	}
+}
